@@ -23,6 +23,7 @@ RULE = (
     "<=4 leaves over a 3-gene awkward alphabet (bounded exhaustive).  Each case is judged on "
     "all 2^n knock-out subsets.  Non-trivial when the rule has >=2 genes and >=1 operator; "
     "distinct by (canonical tree, spelling, transformation)."
+    " Rule objects left behind by remove_genes / rename_genes / a new rule text are judged like parsed rules (text, symbolic and copy forms; compared or symbolised before the edit in half of the cases); == pairs include the same genes in permuted roles."  # third-session additions
 )
 ASSUMPTIONS = [
     "identifier alphabet restricted to the character classes the property enumerates (no blanks, parentheses, non-ASCII, backslashes, cobrapy's own escape markers)",
